@@ -79,12 +79,16 @@ def run_case(c):
     if np.abs(fc).max() < 1e-8:
         return {"skip": "no interaction"}
     p2s = np.array(pr.p2s_map)
-    ph.force_constants = np.array(fc if c["full"] else fc[p2s], dtype="double", order="C")
+    from vlib.gen.layout import ARRAY_KINDS, relayout as _rl
+
+    _frng = np.random.default_rng(c["seed"] + 21)
+    fc_in, fckind = _rl(fc if c["full"] else fc[p2s], _frng, kind=ARRAY_KINDS[int(_frng.integers(len(ARRAY_KINDS)))])  # C / Fortran order / strided / view
+    ph.force_constants = fc_in
     if c["nac"]:
         ph.nac_params = nacgen.random_nac(ph, rng, method=c["nac"])
     factor = ph.unit_conversion_factor
     nb = 3 * len(pr)
-    viol, obs = [], {}
+    viol, obs = [], {"fclayout_" + fckind: 1}
     import phonopy._phonopy as phonoc
 
     build_is_omp = bool(phonoc.use_openmp())
@@ -183,12 +187,15 @@ def run_case(c):
     end = np.array([[0.5, 0, 0], [0.5, 0.5, 0], [0.3, 0.2, 0.1]][rng.integers(3)])
     path = np.array([end * t for t in np.linspace(0, 1, 7)])
     band_freqs = {}
+    band_gv = {}
     for conn in (False, True):
         for wg in (False, True):
             ph.run_band_structure([path], with_eigenvectors=True, with_group_velocities=wg, is_band_connection=conn)
             bd = ph.get_band_structure_dict()
             fr = np.array(bd["frequencies"][0])
             band_freqs[(conn, wg)] = fr
+            if wg:
+                band_gv[conn] = np.array(bd["group_velocities"][0])
             obs["n_band_runs"] = obs.get("n_band_runs", 0) + 1
             # compare with run_qpoints at the same q (Gamma with the path direction)
             ph.run_qpoints(path[1:], with_eigenvectors=False)
@@ -211,6 +218,24 @@ def run_case(c):
                     break
     if np.abs(np.sort(band_freqs[(True, False)], axis=1) - np.sort(band_freqs[(False, False)], axis=1)).max() > 1e-9 * max(np.abs(band_freqs[(False, False)]).max(), 1e-12):
         bad("band_connection_changes_set", "band connection changes the per-q multiset of frequencies")
+    # band connection re-orders the modes, and everything reported per mode with them: the group velocity in slot b belongs to the frequency in slot b
+    if True in band_gv and False in band_gv:
+        f_c, f_p, g_c, g_p = band_freqs[(True, True)], band_freqs[(False, True)], band_gv[True], band_gv[False]
+        fm = max(np.abs(f_p).max(), 1e-12)
+        for k in range(len(f_p)):
+            gaps = np.abs(f_p[k][:, None] - f_p[k][None, :]) + np.eye(f_p.shape[1]) * 1e9
+            for b in range(f_p.shape[1]):
+                if gaps[b].min() < 1e-4 * fm:
+                    continue  # degenerate: the pairing inside the group is not defined
+                j = int(np.argmin(np.abs(f_c[k] - f_p[k][b])))
+                obs["n_gv_slot_checks"] = obs.get("n_gv_slot_checks", 0) + 1
+                if np.abs(g_c[k][j] - g_p[k][b]).max() > 1e-8 * max(np.abs(g_p).max(), 1e-12):
+                    bad("band_connection_gv_slot", "band connection: at q=%s the group velocity reported next to frequency %.6f is %s, without connection that mode has %s" % (
+                        np.round(path[k], 4).tolist(), f_p[k][b], np.round(g_c[k][j], 5).tolist(), np.round(g_p[k][b], 5).tolist()), band_connection=True)
+                    break
+            else:
+                continue
+            break
     # ---- several segments in one call (joined at Gamma, joined elsewhere, ending at Gamma): every (segment, q) equals the segment computed
     #      alone, run_qpoints at the same q (at Gamma with the segment's direction as NAC direction), and D e = lambda e for the reported pairs
     G = np.zeros(3)
